@@ -222,6 +222,140 @@ fn links_to_big(thorough: bool) -> InputFam {
     }
 }
 
+
+/// files for the cross-load family: honest files with one large decoded payload, and tiny
+/// files that merely declare a large size
+pub fn cross_load_files() -> (Vec<(String, Vec<u8>)>, Vec<(String, Vec<u8>)>) {
+    let fmt = Fmt::Rgba;
+    let mut honest: Vec<(String, Vec<u8>)> = Vec::new();
+    {
+        let side = 4600u16; // 4600 x 4600 x 4 = 84.6 MB decoded
+        let mut f = gen::file(4, 4, &fmt, &[1]);
+        f.frames[0].push(Body::Layer(Layer::image("l")));
+        f.frames[0].push(Body::Cel(Cel::new(0, 0, 0, 255, CelBody::Compressed { w: side, h: side, data: vec![], z: Zlib::Verbatim(zlib(&vec![0u8; side as usize * side as usize * 4], 9)) })));
+        honest.push(("honest 4600x4600 image cel (84.6 MB decoded)".into(), f.encode()));
+        let mut f = gen::file(4, 4, &fmt, &[1]);
+        f.frames[0].push(Body::Tileset(tileset(0, 1, 1, 1, vec![0; 4], "t")));
+        f.frames[0].push(Body::Layer(Layer::tilemap("l", 0)));
+        if let Body::Cel(mut c) = tm_cel(0, 0, 0, 255, side, side, vec![]) {
+            if let CelBody::Tilemap { z, .. } = &mut c.body {
+                *z = Zlib::Verbatim(zlib(&vec![0u8; side as usize * side as usize * 4], 9));
+            }
+            f.frames[0].push(Body::Cel(c));
+        }
+        honest.push(("honest 4600x4600 tilemap cel (84.6 MB decoded)".into(), f.encode()));
+        let mut f = gen::file(4, 4, &fmt, &[1]);
+        let mut ts = tileset(0, 6, 2048, 2048, vec![], "t");
+        ts.z = Zlib::Verbatim(zlib(&vec![0u8; 6 * 2048 * 2048 * 4], 9));
+        f.frames[0].push(Body::Tileset(ts));
+        honest.push(("honest tileset of 6 tiles of 2048x2048 (100.7 MB decoded)".into(), f.encode()));
+    }
+    let mut hostile: Vec<(String, Vec<u8>)> = Vec::new();
+    {
+        let tiny = || Zlib::Verbatim(zlib(&[0u8; 4], 6));
+        let mut f = gen::file(4, 4, &fmt, &[1]);
+        f.frames[0].push(Body::Layer(Layer::image("l")));
+        f.frames[0].push(Body::Cel(Cel::new(0, 0, 0, 255, CelBody::Compressed { w: 65535, h: 65535, data: vec![], z: tiny() })));
+        hostile.push(("compressed cel declaring 65535x65535".into(), f.encode()));
+        let mut f = gen::file(4, 4, &fmt, &[1]);
+        f.frames[0].push(Body::Layer(Layer::image("l")));
+        f.frames[0].push(raw_cel(0, 0, 0, 255, 65535, 65535, vec![0; 4]));
+        hostile.push(("raw cel declaring 65535x65535".into(), f.encode()));
+        let mut f = gen::file(4, 4, &fmt, &[1]);
+        f.frames[0].push(Body::Tileset(tileset(0, 1, 1, 1, vec![0; 4], "t")));
+        f.frames[0].push(Body::Layer(Layer::tilemap("l", 0)));
+        if let Body::Cel(mut c) = tm_cel(0, 0, 0, 255, 65535, 65535, vec![]) {
+            if let CelBody::Tilemap { z, .. } = &mut c.body {
+                *z = tiny();
+            }
+            f.frames[0].push(Body::Cel(c));
+        }
+        hostile.push(("tilemap cel declaring 65535x65535 tiles".into(), f.encode()));
+        let mut f = gen::file(4, 4, &fmt, &[1]);
+        let mut ts = tileset(0, 0x00ff_ffff, 16, 16, vec![], "t");
+        ts.z = tiny();
+        f.frames[0].push(Body::Tileset(ts));
+        hostile.push(("tileset declaring 16777215 tiles of 16x16".into(), f.encode()));
+        let mut f = gen::file(4, 4, &fmt, &[1]);
+        f.frames[0].push(Body::Palette(Palette { size: Some(0x0fff_ffff), first: 0, last: Some(0x0fff_fffe), reserved: [0; 8], entries: pal_entries(2, 1) }));
+        hostile.push(("palette declaring 268435455 entries".into(), f.encode()));
+        let mut f = gen::file(4, 4, &fmt, &[1]);
+        f.frames[0].push(Body::Layer(Layer::image("l")));
+        f.frames[0].chunks[0].size = Some(0x7fff_fff0);
+        hostile.push(("chunk declaring a size of 2 GiB".into(), f.encode()));
+        let mut f = gen::file(4, 4, &fmt, &[1]);
+        let mut l = Layer::image("l");
+        l.name.len_override = Some(65535);
+        f.frames[0].push(Body::Layer(l));
+        hostile.push(("layer name declaring 65535 bytes".into(), f.encode()));
+    }
+    (honest, hostile)
+}
+
+/// state carried from one load to the next: every sequence of one or two honest large files
+/// followed by one tiny hostile file, loaded in the same process
+fn cross_load(ctx: &Ctx, worst: &AtomicU64) {
+    let fam = "cross-load";
+    if !ctx.wants_family(fam) {
+        return;
+    }
+    let (honest, hostile) = cross_load_files();
+    let mut seqs: Vec<Vec<usize>> = Vec::new(); // indices into `all` (honest first)
+    let nh = honest.len();
+    for t in 0..hostile.len() {
+        seqs.push(vec![nh + t]);
+        for a in 0..nh {
+            seqs.push(vec![a, nh + t]);
+            for b in 0..nh {
+                seqs.push(vec![a, b, nh + t]);
+            }
+        }
+    }
+    let all: Vec<(String, Vec<u8>)> = honest.into_iter().chain(hostile).collect();
+    let label = |s: &Vec<usize>| s.iter().map(|i| all[*i].0.clone()).collect::<Vec<_>>().join(" ; then ");
+    let only_idx: Option<usize> = ctx.only.as_ref().and_then(|(_, c)| c.strip_prefix("idx=").and_then(|r| r.split(' ').next()).and_then(|s| s.parse().ok()));
+    let indices: Vec<usize> = match only_idx {
+        Some(i) if i < seqs.len() => vec![i],
+        Some(_) => vec![],
+        None => (0..seqs.len()).collect(),
+    };
+    ctx.family(fam, indices.len() as u64, &format!("loads in one process, one after the other: every sequence of 0, 1 or 2 honest files with one large decoded payload (84.6 MB image cel, 84.6 MB tilemap cel, 100.7 MB tileset; each a few hundred KB on disk) followed by one of {} tiny files that merely declare a huge size (cel, raw cel, tilemap, tileset, palette, chunk size, string length); the peak of every load is measured from that load's own entry level and judged against 64 MiB + 8192 x that file's length", all.len() - nh), true);
+    let pool = Pool::new("checked", 6, 600.0);
+    pool.run(
+        indices.len(),
+        &|k| {
+            let files: Vec<(&[u8], bool)> = seqs[indices[k]].iter().map(|i| (all[*i].1.as_slice(), false)).collect();
+            (worker::KIND_LOAD_SEQ, 0, worker::seq_task(&files))
+        },
+        &|k, _bytes, r: TaskResult| {
+            let i = indices[k];
+            let items = worker::seq_items(&r);
+            ctx.eval(seqs[i].len() as u64);
+            ctx.outcome(hash64(&(worker::status_sig(&r), items.iter().map(|x| (x.status, x.peak / 4096)).collect::<Vec<_>>())));
+            if !matches!(r.status, Status::Ok) || items.len() != seqs[i].len() {
+                // aborts and timeouts are C04's business, but a sequence that cannot be measured is reported
+                ctx.violation(Violation { family: fam.into(), case: format!("idx={} {}", i, label(&seqs[i])), sig: format!("over-budget:{}:{}", fam, worker::status_sig(&r)), detail: format!("the sequence did not complete: {:?} {}", r.status, r.msg), bytes: None, extra: json!({}) });
+                return;
+            }
+            for (pos, it) in items.iter().enumerate() {
+                let len = all[seqs[i][pos]].1.len();
+                let lim = bound(len);
+                worst.fetch_max(it.peak.saturating_mul(1000) / lim, Relaxed);
+                if it.peak > lim || it.largest > lim {
+                    ctx.violation(Violation {
+                        family: fam.into(),
+                        case: format!("idx={} {}", i, label(&seqs[i])),
+                        sig: format!("over-budget:{}", fam),
+                        detail: format!("load #{} of the sequence ({}, {} bytes): live heap reached {} B (largest single request {} B); bound is {} B", pos + 1, all[seqs[i][pos]].0, len, it.peak, it.largest, lim),
+                        bytes: Some(all[seqs[i][pos]].1.clone()),
+                        extra: json!({"sequence": seqs[i].iter().map(|x| all[*x].0.clone()).collect::<Vec<_>>(), "position": pos, "peak": it.peak, "largest": it.largest, "bound": lim}),
+                    });
+                }
+            }
+        },
+    );
+}
+
 pub fn run(ctx: &Ctx) -> i32 {
     let thorough = ctx.tier == Tier::Thorough;
     let bases = based_files(false);
@@ -276,6 +410,7 @@ pub fn run(ctx: &Ctx) -> i32 {
             },
         );
     }
+    cross_load(ctx, &worst);
     ctx.set_extra("worst_peak_permille_of_bound", json!(worst.load(Relaxed)));
     ctx.sample(json!({"family": "inflate-declared", "case": "b3 frame[0].chunk[0].ts_ntiles#0=4294967295", "meaning": "base b3 with the tileset's tile count field set to 2^32-1; peak live heap during load must stay below 64 MiB + 8192 x 496 bytes"}));
     ctx.assume("heap use is what the process-wide counting allocator sees between entry to and return from AsepriteFile::read on a single-threaded worker (requests are counted whether or not the pages are touched)");
